@@ -51,8 +51,11 @@ CLAIMED = {
          "field's bits (None for the not-available pattern, else the double fl(fl(n)*resolution) or the int n*k that passed the range "
          "check), encode_number turns back into exactly those bits, for float resolutions 2^-300<=|r|<=2^300 and fields up to 48 bits "
          "(49 signed), integer resolutions while 2^len*k<=2^53; C02_numeric_fields (per run): every NUMBER/DATE/TIME/DURATION field of "
-         "at most 48 bits of every encodable definition in the regenerated tables satisfies those hypotheses. Wider fields (the property "
-         "only asks for closeness there) are decided by the witness search.",
+         "at most 48 bits of every encodable definition in the regenerated tables satisfies those hypotheses. C02_roundtrip (tools/templates/OblC02rt.v, per run; generic "
+         "form C02_roundtrip_def): END TO END for 262 of the 263 encodable definitions of the regenerated tables and EVERY payload: "
+         "whatever message the generated decoder returns, the generated encoder run on it returns an integer that agrees with the "
+         "payload on every bit of every field (1826 fields; composition of C01's decoder theorem, C02_float and C02_bits). The one "
+         "definition outside (129029, 64-bit fields: the property only asks for closeness there) is decided by the witness search.",
          "Trusted: Coq kernel + vm_compute + native float primitives; translators; Encode.v hand model of utils encoders, "
          "Python round() and true division, tied by ~5k kernel-decided cases per run. C02_float depends on the primitive-float/Uint63 "
          "specification axioms of Coq.Floats.FloatAxioms, the real-number axioms (ClassicalDedekindReals.sig_forall_dec, sig_not_dec, "
